@@ -192,3 +192,27 @@ PROPS["C18"] = {
     "assumptions": ["pairing never issues admin tokens (requested admin is capped to engineer) - taken from observation of the store, used only to rank credentials"],
     "design_ref": "DESIGN.md section 3, C18",
 }
+
+PROPS["C19"] = {
+    "engine": "c19",
+    "level": "exploration",
+    "technique": "whole-tree file-system snapshot diff + marker scan around every IDE file operation on a sentinel tree (hostile paths x ops x session kinds), and an offline version-chain checker over recorded concurrent write histories with delays injected at failpoint H3",
+    "quick": {"shards": 8, "budget_s": 15, "watchdog_s": 600},
+    "thorough": {"shards": 16, "budget_s": 300, "watchdog_s": 3000},
+    "floor": {"quick": 3000, "thorough": 20000},
+    "require_counters": {"quick": {"A_calls": 3000, "A_calls_that_changed_the_tree": 40, "B_histories_with_overlapping_writers": 300, "B_successful_writes": 10000, "B_conflicts": 5000},
+                         "thorough": {"B_histories_with_overlapping_writers": 10000}},
+    "rule": "A: 14 operations {list, tree, open, create file/dir, write, rename from/to, delete, search, format, diagnostics, symbols, workspace symbols} x ~57 path strings "
+            "(.., absolute, ./, //, backslashes, hidden, through a directory symlink / file symlink / symlink cycle, NUL, unicode look-alikes, trailing dots/spaces, 4 kB long, "
+            "percent-encoded, random compositions) x {editor, viewer, expired, bogus token, editor with write disabled}; enumerated completely in every tier. distinct = "
+            "(op, path, session, write flag); non-trivial = the call returned (Ok or refusal) and both snapshots were compared. B: 2-8 editor sessions x 5-50 optimistic writes "
+            "with unique ids on 1-2 files, delay probability {0,10,50,100}% at the failpoint; distinct = sequence of (client, success?) ; non-trivial = >=2 clients had overlapping "
+            "calls on one file",
+    "level_text": "Confinement is decided by diffing a snapshot of the whole sentinel tree (which never follows links) before/after every call, including refused calls, and by scanning "
+                  "replies for text and names of outside and hidden files; only non-hidden paths under the project may change, and only for an editor session with writing enabled. "
+                  "Lost updates are decided offline: successes ordered by returned version must each be based on the content written by the previous success, no two share a version, "
+                  "and disk and a fresh open_source equal the last success.",
+    "level_note": "set_active_project / browse_directory are project-selection features outside the listed file operations and are not called. Session expiry uses hook H4 (injected clock).",
+    "assumptions": ["the snapshot walker and the marker strings are the trusted base", "writers re-open after every attempt (well-behaved optimistic clients)"],
+    "design_ref": "DESIGN.md section 3, C19",
+}
